@@ -87,6 +87,83 @@ def spec_ports(dirs):
     return spec
 
 
+# ---- the entity's own name: declaration, architecture and instantiations must agree -----------------------------------------
+# The entity name is part of the interface (instantiations say `entity work.<declared name>`), while the architecture is
+# written `of <scope name>` -- the name the module scope assigned, which differs from the declared one when that is a
+# reserved word (`Buffer` -> `Buffer1`) or when ANOTHER entity class of the same name was declared first (`Leaf`,
+# `Leaf1`: both would be emitted as `entity Leaf`).  Like a port name it cannot be changed: declared == scope name, or reject.
+class _Arch:
+    """vhdl.Architecture stand-in: entity_name() = the name the module scope assigned to the entity"""
+
+
+_Arch.entity_name = lambda self: None
+I.register_model(_Arch.entity_name, lambda it, self: self.fields["f_scope_name"])
+I.register_model(VR.Entity.__dict__["_port_map"], lambda it, self: "PORTS")
+C.inline("cohdl.utility.code_writer:TextBlock.__init__")
+C.inline("cohdl.utility.code_writer:IndentBlock.__init__")
+C.inline("cohdl.utility.code_writer:TextBlock.add")
+
+
+def entity_name_spec(declared, scope_name):
+    def spec(sx, self):
+        if declared != scope_name:
+            raise C.SpecRaise(AssertionError)
+
+        def holds(res):
+            content = res.fields.get("_content") if isinstance(res, SObj) else None
+            return isinstance(content, list) and content[0] == f"entity {declared} is" and content[-1] == f"end {declared};"
+
+        return C.Pred(holds, "entity <declared name> is ... end <declared name>;")
+
+    return spec
+
+
+con = contract("cohdl._compiler.backend.vhdl._vhdl_repr:Entity._entity_declaration", PROPS)
+for declared, scope_name in (("Leaf", "Leaf"), ("Buffer", "Buffer1"), ("Leaf", "Leaf1"), ("top", "top")):
+    c = Case(f"declared-{declared},scope-name-{scope_name}", [Built([], (lambda d, s: lambda env: SObj(VR.Entity, _name=d, _arch=SObj(_Arch, f_scope_name=s)))(declared, scope_name), lambda asg: "None", lambda asg: None)],
+             entity_name_spec(declared, scope_name))
+    c.native = False
+    c.custom_replay = "contracts.c06_ports.replay_entity_names"
+    con.cases.append(c)
+
+_NAMES_DESIGN = '''
+from __future__ import annotations
+import re
+from cohdl import Entity, Port, Bit, std
+
+def make(invert):
+    class Leaf(Entity):
+        a = Port.input(Bit)
+        y = Port.output(Bit)
+        def architecture(self):
+            @std.concurrent
+            def logic():
+                self.y <<= ~self.a if invert else self.a
+    return Leaf
+
+class Top(Entity):
+    a = Port.input(Bit)
+    y = Port.output(Bit)
+    z = Port.output(Bit)
+    def architecture(self):
+        make(False)(a=self.a, y=self.y)
+        make(True)(a=self.a, y=self.z)
+
+try:
+    t = std.VhdlCompiler.to_string(Top)
+    print("ENTITY_DECLARATIONS", re.findall(r"^entity (\\w+) is", t, re.M))
+except AssertionError:
+    print("REJECTED")
+'''
+
+
+def replay_entity_names(payload):
+    from contracts.c06_extra import _run_design
+
+    rc, out = _run_design(_NAMES_DESIGN)
+    return {"reproduced": "['Leaf', 'Leaf'" in out, "detail": out[-200:]}
+
+
 con = contract(QUAL, PROPS)
 for dirs in (("in",), ("out",), ("inout",), ("in", "out"), ("out", "in", "inout")):
     for depth in (0, 1, 2):
